@@ -379,6 +379,28 @@ pub fn eval_joinacc(c: &JoinAccCase) -> Vec<(String, String)> {
             }
         }
     }
+    // the same description with its identifiers given in their conventional text form (MSB-first hex, as a network
+    // server's configuration holds them): where the text form is accepted the frame is the same
+    if c.buf == 2 && c.rx_delay <= 15 {
+        use core::str::FromStr;
+        let got2 = catch(|| {
+            let (Ok(jn), Ok(ni), Ok(da)) = (
+                JoinNonce::from_str(&format!("{:06x}", c.join_nonce & 0xFF_FFFF)),
+                NetId::from_str(&format!("{:06x}", c.net_id & 0xFF_FFFF)),
+                DevAddr::from_str(&format!("{:08x}", c.devaddr)),
+            ) else {
+                return None;
+            };
+            let ja = JoinAccept { join_nonce: jn, net_id: ni, dev_addr: da, dl_settings: DLSettings::new(c.dl_settings), rx_delay: c.rx_delay, c_f_list: cf_impl.clone() };
+            let mut buf = vec![0xEE; 255];
+            ja.build_into(&mut buf, &DefaultNetworkCrypto::new(&AES128(key))).map(|b| b.to_vec()).ok()
+        });
+        match got2 {
+            Err(p) => v.push((format!("C01|joinacc|panic|text-form|{}", panic_site(&p)), p)),
+            Ok(Some(b)) if b != r => v.push(("C01|joinacc|mismatch|identifiers-from-text-form".into(), format!("built {} reference {}", hex(&b), hex(&r)))),
+            _ => {}
+        }
+    }
     v
 }
 
@@ -619,7 +641,7 @@ pub fn run(tier: Tier, replay: Option<&str>) {
     let coverage = json!({
         "evaluations": ctx.evals(),
         "distinct_nontrivial": nontrivial.load(Ordering::Relaxed),
-        "rule": "four full cartesian sub-products, each tuple a distinct frame description: (A) MType(4) x 16 flag combinations x FOpts length 0..=17 and forbidden lengths up to 527 (31..33, 255..257, 263, 270..272, 300, 511, 512, 527) x payload kind(7: none / Data ports 1,2,223,224,255 / MacCommands) x boundary lengths x counters x addresses x key pairs x crypto variant(2) x buffer size(exact, exact-1, large) x app key present/withheld; (B) every payload length 0..=242 x FOpts {0,1,15} x MType x kind(3) x counters x addresses x key pairs x contents x crypto variant; (C) JoinRequest: all 65536 DevNonce x EUI patterns x keys x crypto x buffer; (D) JoinAccept: all 256 DLSettings x RxDelay set x 9 CFList variants x nonce/netid/addr boundary sets x keys x buffer. non-trivial = description that must yield a frame (compared byte for byte); the rest must be refused",
+        "rule": "JoinAccepts are also built from identifiers given in their MSB-first text form (FromStr); four full cartesian sub-products, each tuple a distinct frame description: (A) MType(4) x 16 flag combinations x FOpts length 0..=17 and forbidden lengths up to 527 (31..33, 255..257, 263, 270..272, 300, 511, 512, 527) x payload kind(7: none / Data ports 1,2,223,224,255 / MacCommands) x boundary lengths x counters x addresses x key pairs x crypto variant(2) x buffer size(exact, exact-1, large) x app key present/withheld; (B) every payload length 0..=242 x FOpts {0,1,15} x MType x kind(3) x counters x addresses x key pairs x contents x crypto variant; (C) JoinRequest: all 65536 DevNonce x EUI patterns x keys x crypto x buffer; (D) JoinAccept: all 256 DLSettings x RxDelay set x 9 CFList variants x nonce/netid/addr boundary sets x keys x buffer. non-trivial = description that must yield a frame (compared byte for byte); the rest must be refused",
         "samples": samples,
         "exhaustive": true,
         "sub_products": ["header", "length", "joinrequest", "joinaccept"],
